@@ -9,6 +9,7 @@ use identity_verification::jws::SignatureVerificationErrorKind;
 use identity_verification::jwu::{self};
 use k256::ecdsa::Signature;
 use k256::ecdsa::VerifyingKey;
+use k256::elliptic_curve::generic_array::GenericArray;
 use k256::elliptic_curve::sec1::FromEncodedPoint;
 use k256::elliptic_curve::subtle::CtOption;
 use k256::EncodedPoint;
@@ -49,7 +50,7 @@ impl Secp256K1Verifier {
 
     // Concatenate x and y coordinates as required by
     // EncodedPoint::from_untagged_bytes.
-    let public_key_bytes = jwu::decode_b64(&params.x)
+    let public_key_bytes: Vec<u8> = jwu::decode_b64(&params.x)
       .map_err(|err| {
         SignatureVerificationError::new(SignatureVerificationErrorKind::KeyDecodingFailure).with_source(err)
       })?
@@ -61,7 +62,13 @@ impl Secp256K1Verifier {
 
     // The JWK contains the uncompressed x and y coordinates, so we can create the
     // encoded point directly without prefixing an SEC1 tag.
-    let encoded_point: EncodedPoint = EncodedPoint::from_untagged_bytes(&public_key_bytes);
+    // `from_untagged_bytes` takes exactly 64 bytes; coordinates of any other length do not denote a key.
+    if public_key_bytes.len() != 64 {
+      return Err(SignatureVerificationError::new(
+        SignatureVerificationErrorKind::KeyDecodingFailure,
+      ));
+    }
+    let encoded_point: EncodedPoint = EncodedPoint::from_untagged_bytes(GenericArray::from_slice(&public_key_bytes));
     let public_key: PublicKey = {
       let opt_public_key: CtOption<PublicKey> = PublicKey::from_encoded_point(&encoded_point);
       if opt_public_key.is_none().into() {
